@@ -216,7 +216,7 @@ func c07R4(c *Ctx) {
 		spec := c.W.StdLockSpec()
 		ls := kit.Locksets(fn, spec, nil)
 		for _, wc := range calls {
-			c.R.Check(containsLock(ls[wc], "n.m"), r, "v1 DLQHandlerNode.Nack: window consulted under n.m", c.Pos(wc.Pos()), "held "+ls[wc], "window.Nack is called without n.m", true)
+			c.R.Check(containsLock(ls[wc], "recv.m"), r, "v1 DLQHandlerNode.Nack: window consulted under n.m", c.Pos(wc.Pos()), "held "+ls[wc], "window.Nack is called without n.m", true)
 		}
 	}
 	// v2
@@ -228,7 +228,7 @@ func c07R4(c *Ctx) {
 		spec := c.W.StdLockSpec()
 		ls := kit.Locksets(fn, spec, nil)
 		for _, wc := range calls {
-			c.R.Check(containsLock(ls[wc], "d.m"), r, "v2 DLQ.Nack: window consulted under d.m", c.Pos(wc.Pos()), "held "+ls[wc], "window.Nack is called without d.m", true)
+			c.R.Check(containsLock(ls[wc], "recv.m"), r, "v2 DLQ.Nack: window consulted under d.m", c.Pos(wc.Pos()), "held "+ls[wc], "window.Nack is called without d.m", true)
 		}
 		// write failure ⇒ fatal
 		for _, sc := range kit.CallsTo(fn, send) {
@@ -289,11 +289,10 @@ func c07R5(c *Ctx) {
 		for _, call := range kit.CallsTo(fn, Set(setNode)) {
 			a := call.Common().Args
 			ok := len(a) == 2 && kit.DerivesFrom(a[1], func(v ssa.Value) bool {
-				switch x := v.(type) {
-				case *ssa.Parameter:
-					return x.Name() == "taskID" || x.Name() == "nackMetadata"
+				if _, isParam := v.(*ssa.Parameter); isParam {
+					return true // the task id / nack metadata handed in by the caller
 				}
-				return kit.DerivesFromPath(v, "NodeID") || kit.DerivesFromPath(v, "nackMetadata")
+				return kit.DerivesFromPath(v, "NodeID")
 			})
 			c.R.Check(ok, r, t[1]+": component id comes from the nack", c.Pos(call.Pos()), "ok", "the failing component recorded in the DLQ record is not the one passed with the nack", true)
 		}
